@@ -518,6 +518,414 @@ func b2i(b bool) int {
 	return 0
 }
 
+// ---------------------------------------------------------------- one consumer under test + one recorded Push
+
+type pEnv struct {
+	g        *pGen
+	cid      string
+	w        *pWorld
+	gs       *guardiansets.GuardianSets
+	gsC      chan *common.GuardianSet
+	cache    *pCache
+	queue    chan *Message
+	consumer *vaaGossipConsumer
+	qcap     int
+	filler   *Message
+}
+
+// how the surroundings of one Push are arranged
+type pOpt struct {
+	room     int  // 0: queue full, 1: exactly one slot left, 2: queue empty
+	getErr   bool // cache.Get also returns an error
+	forceHit bool // cache.Get answers "seen" whatever it holds
+	noDial   bool // the chain cannot be dialled
+	failAt   int  // getGuardianSet(failAt) fails on the chain (< 0: none)
+}
+
+func (e *pEnv) drain() []*common.GuardianSet {
+	var l []*common.GuardianSet
+	for {
+		select {
+		case s := <-e.gsC:
+			l = append(l, s)
+		default:
+			return l
+		}
+	}
+}
+
+// newEnv publishes the world's guardian sets on the fake chain, builds the real GuardianSets over the first n0 of them, a
+// real Deduplicator over the recording cache, a bounded queue and the real consumer, and writes the `gsnew` line.
+func (g *pGen) newEnv(cid string, w *pWorld, n0 int, qcap int) *pEnv {
+	g.chain.mu.Lock()
+	g.chain.keys = map[uint32][]eth_common.Address{}
+	g.chain.failAt = map[uint32]bool{}
+	g.chain.cur = uint32(len(w.truth) - 1)
+	g.chain.log = nil
+	for i := range w.truth {
+		g.chain.keys[uint32(i)] = w.addrs(i)
+	}
+	g.chain.mu.Unlock()
+	init := make([]*common.GuardianSet, n0)
+	for i := range init {
+		init[i] = &common.GuardianSet{Index: uint32(i), Keys: w.addrs(i)}
+	}
+	e := &pEnv{g: g, cid: cid, w: w, qcap: qcap, filler: &Message{}}
+	e.gsC = make(chan *common.GuardianSet, 64)
+	e.gs = guardiansets.NewGuardianSets(init, g.chain.srv.URL, zap.NewNop(), time.Hour, eth_common.HexToAddress("0xc0"), e.gsC)
+	sent := e.drain()
+	cur, list := e.gs.VerifState()
+	fmt.Fprintf(g.w, "gsnew %s list=%s res=ok sent=%s cur=%d list=%s\n", cid, pSets(init), pSets(sent), cur, pSets(list))
+	e.cache = &pCache{m: map[string]bool{}}
+	dedup := deduplicator.New(e.cache, zap.NewNop())
+	e.queue = make(chan *Message, qcap)
+	e.consumer = NewVAAGossipConsumer(e.gs, dedup, e.queue, zap.NewNop())
+	return e
+}
+
+// push runs the real Push once and writes the `push` line; returns the result class.
+func (e *pEnv) push(v *vaa.VAA, kname string, o pOpt) string {
+	g := e.g
+	queue, cache := e.queue, e.cache
+	cur, _ := e.gs.VerifState()
+	serialized, _ := v.Marshal()
+	for len(queue) > 0 {
+		<-queue
+	}
+	switch o.room {
+	case 0:
+		for len(queue) < e.qcap {
+			queue <- e.filler
+		}
+	case 1:
+		for len(queue) < e.qcap-1 {
+			queue <- e.filler // one slot left: the boundary
+		}
+	}
+	room := o.room != 0
+	before := len(queue)
+	cache.gets, cache.sets = nil, nil
+	cache.getErr = o.getErr
+	cache.forceHit = o.forceHit
+	url := g.chain.srv.URL
+	if o.noDial {
+		url = "verif-no-such-scheme://x"
+	}
+	e.gs.VerifSetURL(url)
+	if o.failAt >= 0 && int(v.GuardianSetIndex) > cur {
+		g.chain.failAt[uint32(o.failAt)] = true
+	}
+	mid := v.MessageID()
+	hit := cache.forceHit || cache.m[mid]
+	var err error
+	// Push must not block (its hand-off is a non-blocking send): run it with a deadline so that a blocking
+	// implementation shows up as res=blocked instead of hanging the run.
+	resC := make(chan string, 1)
+	go func() {
+		resC <- func() (s string) {
+			defer func() {
+				if e := recover(); e != nil {
+					s = "panic"
+				}
+			}()
+			err = e.consumer.Push(context.Background(), v, serialized)
+			return ""
+		}()
+	}()
+	var res string
+	select {
+	case res = <-resC:
+	case <-time.After(20 * time.Second):
+		for len(queue) > 0 { // unblock it
+			<-queue
+		}
+		<-resC
+		res = "blocked"
+		before = 0
+	}
+	g.chain.failAt = map[uint32]bool{}
+	// what appeared on the queue
+	enq := len(queue) > before
+	qsame := false
+	var got []*Message
+	for len(queue) > 0 {
+		got = append(got, <-queue)
+	}
+	if enq {
+		m := got[len(got)-1]
+		qsame = m.vaa == v && bytes.Equal(m.serialized, serialized) && len(got) == before+1
+	}
+	if res == "" {
+		res = pClass(err, enq)
+	}
+	getkey := len(cache.gets) == 0 || (len(cache.gets) == 1 && cache.gets[0] == mid)
+	stored := len(cache.sets) > 0
+	setkey := !stored || (len(cache.sets) == 1 && cache.sets[0] == mid)
+	cur2, list2 := e.gs.VerifState()
+	fmt.Fprintf(g.w, "push %s kind=%s v=%s rec=%s hit=%d room=%d dial=%d chain=%s res=%s enq=%d qsame=%d getkey=%d stored=%d setkey=%d sent=%s cur=%d list=%s named=%s\n",
+		e.cid, kname, pCanon(v), pRec(v), b2i(hit), b2i(room), b2i(!o.noDial), g.chain.takeLog(), res, b2i(enq), b2i(qsame), b2i(getkey), b2i(stored),
+		b2i(setkey), pSets(e.drain()), cur2, pSets(list2), pKeys(e.w.addrs(int(v.GuardianSetIndex))))
+	return res
+}
+
+// the dedup entry expires / is evicted: the cache forgets everything it held
+func (e *pEnv) expire() { e.cache.m = map[string]bool{} }
+
+// ---------------------------------------------------------------- forged copies of a genuine VAA (same message id)
+
+var pForgeKinds = []string{"unsigned", "outsiders", "stolen-sigs", "undersigned", "renamed-set", "same-body-outsiders", "one-outsider"}
+
+// forge builds a VAA with the message id (emitter chain / emitter address / target chain / sequence) of `gen` that is NOT
+// signed by a quorum of the set it names (barring key coincidences, which the oracle table decides, not this generator).
+func (g *pGen) forge(w *pWorld, gen *vaa.VAA, fk int) (*vaa.VAA, string) {
+	si := int(gen.GuardianSetIndex)
+	f := g.body(gen.GuardianSetIndex)
+	f.EmitterChain, f.EmitterAddress, f.TargetChain, f.Sequence = gen.EmitterChain, gen.EmitterAddress, gen.TargetChain, gen.Sequence
+	var keys []pKey
+	if si >= 0 && si < len(w.truth) {
+		keys = w.truth[si]
+	}
+	n := len(keys)
+	q := nodeprocessor.CalculateQuorum(n)
+	outsiders := func(v *vaa.VAA, k int) {
+		digest := v.SigningMsg().Bytes()
+		v.Signatures = nil
+		for i := 0; i < k; i++ {
+			v.Signatures = append(v.Signatures, &vaa.Signature{Index: uint8(i), Signature: pSign(g.newKey(), digest)})
+		}
+	}
+	copySigs := func(dst *vaa.VAA) {
+		dst.Signatures = nil
+		for _, s := range gen.Signatures {
+			c := *s
+			dst.Signatures = append(dst.Signatures, &c)
+		}
+	}
+	switch fk {
+	case 0: // another payload, no signature at all
+	case 1: // another payload, a quorum-sized list signed by keys outside every set
+		outsiders(f, q)
+	case 2: // another payload under the genuine VAA's signatures
+		copySigs(f)
+	case 3: // another payload, really signed by the named set - one short of its quorum
+		if q-1 >= 1 {
+			g.signWith(f, keys, g.subset(n, q-1))
+		} else {
+			outsiders(f, 1)
+		}
+	case 4: // the genuine body and signatures, but naming another guardian set
+		c := *gen
+		f = &c
+		copySigs(f)
+		if len(w.truth) > 1 {
+			f.GuardianSetIndex = uint32((si + 1 + g.r.Intn(len(w.truth)-1)) % len(w.truth))
+		}
+		if int(f.GuardianSetIndex) == si {
+			f.GuardianSetIndex = uint32(len(w.truth)) // a set nobody knows
+		}
+	case 5: // the genuine body, signatures replaced by outsiders'
+		c := *gen
+		f = &c
+		outsiders(f, q)
+	default: // another payload, a quorum of the named set except that one signature is an outsider's
+		if n == 0 {
+			outsiders(f, 1)
+			break
+		}
+		g.signWith(f, keys, g.subset(n, q))
+		f.Signatures[g.r.Intn(len(f.Signatures))].Signature = pSign(g.newKey(), f.SigningMsg().Bytes())
+	}
+	return f, "forged-" + pForgeKinds[fk]
+}
+
+// forgedSequence: the histories in which a check of the signatures could be skipped because "this message id was verified
+// before" - the genuine VAA is verified first but is not (or no longer) in the dedup cache when the forged copy arrives:
+//   genuine, queue full (hand-off fails, id not marked)  -> forged copy, queue has room        must not be queued
+//   genuine again, room (queued, id marked)              -> forged copy while the id is marked  must not be queued
+//   the dedup entry expires                              -> forged copy, room                   must not be queued
+//   genuine after expiry (queued again: dedup is a cache)
+// for every forging kind, over 2-3 guardian sets.
+func (g *pGen) forgedSequence(sizes []int) {
+	w := &pWorld{nilAt: -1}
+	for _, n := range sizes {
+		w.truth = append(w.truth, g.distinctKeys(n))
+	}
+	e := g.newEnv(g.cid("pushf"), w, len(w.truth), 2)
+	none := pOpt{room: 2, failAt: -1}
+	for fk := range pForgeKinds {
+		si := (fk + g.r.Intn(2)) % len(w.truth)
+		n := len(w.truth[si])
+		q := nodeprocessor.CalculateQuorum(n)
+		gen := g.body(uint32(si))
+		if fk%2 == 0 {
+			g.signWith(gen, w.truth[si], g.subset(n, q))
+		} else {
+			g.signWith(gen, w.truth[si], firstN(n))
+		}
+		e.push(gen, "genuine-queue-full", pOpt{room: 0, failAt: -1})
+		f1, k1 := g.forge(w, gen, fk)
+		e.push(f1, k1+"/after-failed-handoff", pOpt{room: 1 + g.r.Intn(2), failAt: -1})
+		e.push(gen, "genuine-retry", none)
+		f2, k2 := g.forge(w, gen, fk)
+		e.push(f2, k2+"/while-marked", none)
+		e.expire()
+		f3, k3 := g.forge(w, gen, (fk+1+g.r.Intn(len(pForgeKinds)-1))%len(pForgeKinds))
+		e.push(f3, k3+"/after-expiry", none)
+		e.push(f1, k1+"/after-expiry", pOpt{room: 1, failAt: -1})
+		e.push(gen, "genuine-after-expiry", none)
+	}
+}
+
+func (g *pGen) distinctKeys(n int) []pKey {
+	ks := make([]pKey, 0, n)
+	for _, j := range g.r.Perm(len(g.pool))[:n] {
+		ks = append(ks, g.pool[j])
+	}
+	return ks
+}
+
+// ---------------------------------------------------------------- a quorum of valid signatures followed by surplus bad ones
+
+var pBadKinds = []string{"wrongkey", "dupindex", "descending", "oob", "garbage", "validthenbad"}
+
+// mkExtra: quorum(n) valid signatures of set si, then nx (1..3) surplus signatures none of which VerifySignatures accepts:
+// signed by a key outside the set, repeating the last index, going back to a lower index (a real signature of that guardian),
+// claiming an index >= the set size, or random / zero bytes. "validthenbad" puts one more VALID signature before the bad ones
+// when the set has a guardian left.
+func (g *pGen) mkExtra(w *pWorld, si int, bad int, nx int) (*vaa.VAA, string) {
+	r := g.r
+	v := g.body(uint32(si))
+	keys := w.truth[si]
+	n := len(keys)
+	q := nodeprocessor.CalculateQuorum(n)
+	digest := v.SigningMsg().Bytes()
+	idx := firstN(q)
+	if bad == 2 { // the quorum sits at the top of the set so that lower indexes are free
+		for i := range idx {
+			idx[i] = n - q + i
+		}
+	}
+	g.signWith(v, keys, idx)
+	add := func(i int, s [65]byte) {
+		v.Signatures = append(v.Signatures, &vaa.Signature{Index: uint8(i), Signature: s})
+	}
+	clamp := func(i int) int {
+		if i >= n {
+			return n - 1
+		}
+		return i
+	}
+	next := q // next free ascending index
+	if bad == 5 && q < n {
+		add(q, pSign(keys[q], digest))
+		next = q + 1
+	}
+	for x := 0; x < nx; x++ {
+		switch bad {
+		case 0, 5:
+			add(clamp(next+x), pSign(g.newKey(), digest))
+		case 1:
+			last := v.Signatures[q-1]
+			add(int(last.Index), last.Signature)
+		case 2:
+			j := n - q - 1 - x
+			if j < 0 {
+				j = 0
+			}
+			add(j, pSign(keys[j], digest))
+		case 3:
+			add([]int{n, n + 1, 255}[x], pSign(keys[x%n], digest))
+		default:
+			var s [65]byte
+			switch x {
+			case 0:
+				r.Read(s[:])
+				s[64] = byte(r.Intn(2))
+			case 1:
+				r.Read(s[:])
+				s[64] = byte(4 + r.Intn(200))
+			}
+			add(clamp(next+x), s)
+		}
+	}
+	return v, fmt.Sprintf("extra-%s+%d/q%dof%d", pBadKinds[bad], nx, q, n)
+}
+
+// surplus VALID signatures (quorum+1 .. all): the control for mkExtra - these are to be accepted
+func (g *pGen) mkSurplusValid(w *pWorld, si int, extra int) (*vaa.VAA, string) {
+	v := g.body(uint32(si))
+	keys := w.truth[si]
+	n := len(keys)
+	k := nodeprocessor.CalculateQuorum(n) + extra
+	if k > n {
+		k = n
+	}
+	g.signWith(v, keys, g.subset(n, k))
+	return v, fmt.Sprintf("surplus-valid/%dof%d", k, n)
+}
+
+// gateSequence: every surplus-bad-signature kind x 1..3 through the real Push on a fresh consumer, every VAA with its own
+// message id, an honest empty dedup cache and room in the queue - what is queued is exactly what the gate let through.
+func (g *pGen) gateSequence(sizes []int) {
+	w := &pWorld{nilAt: -1}
+	for _, n := range sizes {
+		w.truth = append(w.truth, g.distinctKeys(n))
+	}
+	e := g.newEnv(g.cid("pushg"), w, len(w.truth), 2)
+	i := 0
+	for bad := range pBadKinds {
+		for nx := 1; nx <= 3; nx++ {
+			si := i % len(w.truth)
+			i++
+			v, k := g.mkExtra(w, si, bad, nx)
+			e.push(v, k, pOpt{room: 1 + i%2, failAt: -1})
+		}
+	}
+	for si := range w.truth {
+		for x := 0; x < 3; x++ {
+			v, k := g.mkSurplusValid(w, si, x)
+			e.push(v, k, pOpt{room: 2, failAt: -1})
+		}
+	}
+}
+
+// gateDirect: the same lists straight into verifyVAA, for every set size
+func (g *pGen) gateDirect() {
+	vfn, ok := pVerifyFn()
+	if !ok {
+		return
+	}
+	w := &pWorld{nilAt: -1}
+	for _, n := range pSizes {
+		w.truth = append(w.truth, g.distinctKeys(n))
+	}
+	call := func(v *vaa.VAA, kname string, addrs []eth_common.Address) {
+		fmt.Fprintf(g.w, "vfy %s kind=%s v=%s addrs=%s rec=%s res=%s\n", g.cid("vfy"), kname, pCanon(v), pKeys(addrs), pRec(v), pCallVerify(vfn, v, addrs))
+	}
+	for si := range w.truth {
+		for bad := range pBadKinds {
+			for nx := 1; nx <= 3; nx++ {
+				v, k := g.mkExtra(w, si, bad, nx)
+				call(v, k, w.addrs(si))
+			}
+		}
+		for x := 0; x < 3; x++ {
+			v, k := g.mkSurplusValid(w, si, x)
+			call(v, k, w.addrs(si))
+		}
+	}
+}
+
+var pGateWorlds = [][]int{{4, 13}, {7, 19}, {19, 4, 7}, {13, 5}, {3, 10, 1}, {2, 6}}
+
+// gateCases = the cases C06 re-uses for its anchor explorer-backend/processor/vaa_gossip_consumer.go
+func (g *pGen) gateCases() {
+	g.gateDirect()
+	for _, sizes := range pGateWorlds {
+		g.gateSequence(sizes)
+	}
+}
+
 func (g *pGen) sequence(steps int) {
 	r := g.r
 	cid := g.cid("push")
@@ -548,66 +956,17 @@ func (g *pGen) sequence(steps int) {
 				n = ladder[3+r.Intn(3)]
 			}
 		}
-		ks := make([]pKey, n)
-		for j := range ks {
-			ks[j] = g.pool[r.Intn(len(g.pool))]
-			for dup := true; dup; { // distinct keys inside one set
-				dup = false
-				for _, o := range ks[:j] {
-					if o.addr == ks[j].addr {
-						ks[j] = g.pool[r.Intn(len(g.pool))]
-						dup = true
-					}
-				}
-			}
-		}
-		w.truth = append(w.truth, ks)
+		w.truth = append(w.truth, g.distinctKeys(n))
 	}
-	g.chain.mu.Lock()
-	g.chain.keys = map[uint32][]eth_common.Address{}
-	g.chain.failAt = map[uint32]bool{}
-	g.chain.cur = uint32(C)
-	g.chain.log = nil
-	for i := range w.truth {
-		g.chain.keys[uint32(i)] = w.addrs(i)
-	}
-	g.chain.mu.Unlock()
 	n0 := 1 + r.Intn(C+1)
 	if r.Intn(8) == 0 {
 		w.nilAt = r.Intn(n0)
 	}
-	init := make([]*common.GuardianSet, n0)
-	for i := range init {
-		init[i] = &common.GuardianSet{Index: uint32(i), Keys: w.addrs(i)}
-	}
-	gsC := make(chan *common.GuardianSet, 64)
-	gs := guardiansets.NewGuardianSets(init, g.chain.srv.URL, zap.NewNop(), time.Hour, eth_common.HexToAddress("0xc0"), gsC)
-	var sent []*common.GuardianSet
-	drain := func() []*common.GuardianSet {
-		var l []*common.GuardianSet
-		for {
-			select {
-			case s := <-gsC:
-				l = append(l, s)
-			default:
-				return l
-			}
-		}
-	}
-	sent = drain()
-	cur, list := gs.VerifState()
-	fmt.Fprintf(g.w, "gsnew %s list=%s res=ok sent=%s cur=%d list=%s\n", cid, pSets(init), pSets(sent), cur, pSets(list))
-
-	cache := &pCache{m: map[string]bool{}}
-	dedup := deduplicator.New(cache, zap.NewNop())
-	const qcap = 2
-	queue := make(chan *Message, qcap)
-	consumer := NewVAAGossipConsumer(gs, dedup, queue, zap.NewNop())
-	filler := &Message{}
+	e := g.newEnv(cid, w, n0, 2)
 	var prev []*vaa.VAA
 
 	for i := 0; i < steps; i++ {
-		cur, _ = gs.VerifState()
+		cur, _ := e.gs.VerifState()
 		// which set does the VAA name
 		si := r.Intn(cur + 1)
 		switch r.Intn(8) {
@@ -633,92 +992,33 @@ func (g *pGen) sequence(steps int) {
 			}
 		}
 		v, kname := g.mkVAA(w, si, kind, curN)
-		// a repeat of an earlier VAA (same message id): same object, or a re-signed copy with other signers
+		if si >= 0 && si < len(w.truth) && len(w.truth[si]) > 0 && r.Intn(8) == 0 {
+			v, kname = g.mkExtra(w, si, r.Intn(len(pBadKinds)), 1+r.Intn(3))
+		}
+		// a repeat of an earlier message id: the same VAA again, or a forged copy of it
 		if len(prev) > 0 && r.Intn(4) == 0 {
 			v = prev[r.Intn(len(prev))]
 			kname = "repeat"
-		}
-		serialized, _ := v.Marshal()
-		room := r.Intn(4) != 0
-		// arrange the queue
-		for len(queue) > 0 {
-			<-queue
-		}
-		if !room {
-			for len(queue) < qcap {
-				queue <- filler
+			if r.Intn(3) == 0 {
+				v, kname = g.forge(w, v, r.Intn(len(pForgeKinds)))
 			}
-		} else if r.Intn(2) == 0 {
-			queue <- filler // one slot left: the boundary
 		}
-		before := len(queue)
-		cache.gets, cache.sets = nil, nil
-		cache.getErr = r.Intn(10) == 0
-		cache.forceHit = r.Intn(25) == 0
-		dial := r.Intn(12) != 0
-		url := g.chain.srv.URL
-		if !dial {
-			url = "verif-no-such-scheme://x"
+		o := pOpt{room: 0, failAt: -1}
+		if r.Intn(4) != 0 {
+			o.room = 1 + r.Intn(2)
 		}
-		gs.VerifSetURL(url)
+		o.getErr = r.Intn(10) == 0
+		o.forceHit = r.Intn(25) == 0
+		o.noDial = r.Intn(12) == 0
 		if int(v.GuardianSetIndex) > cur && r.Intn(6) == 0 {
-			g.chain.failAt[uint32(cur+1+r.Intn(int(v.GuardianSetIndex)-cur))] = true
+			o.failAt = cur + 1 + r.Intn(int(v.GuardianSetIndex)-cur)
 		}
-		mid := v.MessageID()
-		hit := cache.forceHit || cache.m[mid]
-		var err error
-		// Push must not block (its hand-off is a non-blocking send): run it with a deadline so that a blocking
-		// implementation shows up as res=blocked instead of hanging the run.
-		resC := make(chan string, 1)
-		go func() {
-			resC <- func() (s string) {
-				defer func() {
-					if e := recover(); e != nil {
-						s = "panic"
-					}
-				}()
-				err = consumer.Push(context.Background(), v, serialized)
-				return ""
-			}()
-		}()
-		var res string
-		select {
-		case res = <-resC:
-		case <-time.After(20 * time.Second):
-			for len(queue) > 0 { // unblock it
-				<-queue
-			}
-			<-resC
-			res = "blocked"
-			before = 0
-		}
-		g.chain.failAt = map[uint32]bool{}
-		// what appeared on the queue
-		enq := len(queue) > before
-		qsame := false
-		var got []*Message
-		for len(queue) > 0 {
-			got = append(got, <-queue)
-		}
-		if enq {
-			m := got[len(got)-1]
-			qsame = m.vaa == v && bytes.Equal(m.serialized, serialized) && len(got) == before+1
-		}
-		if res == "" {
-			res = pClass(err, enq)
-		}
-		getkey := len(cache.gets) == 0 || (len(cache.gets) == 1 && cache.gets[0] == mid)
-		stored := len(cache.sets) > 0
-		setkey := !stored || (len(cache.sets) == 1 && cache.sets[0] == mid)
-		cur2, list2 := gs.VerifState()
-		fmt.Fprintf(g.w, "push %s kind=%s v=%s rec=%s hit=%d room=%d dial=%d chain=%s res=%s enq=%d qsame=%d getkey=%d stored=%d setkey=%d sent=%s cur=%d list=%s named=%s\n",
-			cid, kname, pCanon(v), pRec(v), b2i(hit), b2i(room), b2i(dial), g.chain.takeLog(), res, b2i(enq), b2i(qsame), b2i(getkey), b2i(stored),
-			b2i(setkey), pSets(drain()), cur2, pSets(list2), pKeys(w.addrs(int(v.GuardianSetIndex))))
-		if len(prev) < 8 {
+		e.push(v, kname, o)
+		if len(prev) < 8 && !strings.HasPrefix(kname, "forged-") {
 			prev = append(prev, v)
 		}
 		if r.Intn(10) == 0 { // the cache forgets (expiry)
-			cache.m = map[string]bool{}
+			e.expire()
 		}
 	}
 }
@@ -733,6 +1033,19 @@ func pVerifyFn() (reflect.Value, bool) {
 		t.In(0) == reflect.TypeOf((*vaa.VAA)(nil)) && t.In(1) == reflect.TypeOf([]eth_common.Address(nil)) &&
 		t.Out(0) == reflect.TypeOf((*error)(nil)).Elem()
 	return fn, ok
+}
+
+func pCallVerify(vfn reflect.Value, v *vaa.VAA, addrs []eth_common.Address) (s string) {
+	defer func() {
+		if e := recover(); e != nil {
+			s = "panic"
+		}
+	}()
+	out := vfn.Call([]reflect.Value{reflect.ValueOf(v), reflect.ValueOf(addrs)})
+	if err, _ := out[0].Interface().(error); err != nil {
+		return pClass(err, false)
+	}
+	return "nil"
 }
 
 func (g *pGen) verifyDirect() {
@@ -761,37 +1074,34 @@ func (g *pGen) verifyDirect() {
 			case 2:
 				addrs = addrs[:len(addrs)-1]
 			}
-			res := func() (s string) {
-				defer func() {
-					if e := recover(); e != nil {
-						s = "panic"
-					}
-				}()
-				out := vfn.Call([]reflect.Value{reflect.ValueOf(v), reflect.ValueOf(addrs)})
-				if err, _ := out[0].Interface().(error); err != nil {
-					return pClass(err, false)
-				}
-				return "nil"
-			}()
-			fmt.Fprintf(g.w, "vfy %s kind=%s v=%s addrs=%s rec=%s res=%s\n", g.cid("vfy"), kname, pCanon(v), pKeys(addrs), pRec(v), res)
+			fmt.Fprintf(g.w, "vfy %s kind=%s v=%s addrs=%s rec=%s res=%s\n", g.cid("vfy"), kname, pCanon(v), pKeys(addrs), pRec(v), pCallVerify(vfn, v, addrs))
 		}
 	}
 }
 
-func TestVerifPush(t *testing.T) {
+func pOpen(t *testing.T, name string) (*pGen, func()) {
 	seed, _ := strconv.ParseInt(os.Getenv("VERIF_SEED"), 10, 64)
-	thorough := os.Getenv("VERIF_TIER") == "thorough"
-	f, err := os.Create(filepath.Join(os.Getenv("VERIF_OUT"), "explorer_push.cases"))
+	f, err := os.Create(filepath.Join(os.Getenv("VERIF_OUT"), name))
 	if err != nil {
 		t.Fatal(err)
 	}
-	defer f.Close()
 	g := &pGen{r: rand.New(rand.NewSource(seed)), w: bufio.NewWriterSize(f, 1<<20), chain: pNewChain()}
-	defer g.chain.srv.Close()
-	defer g.w.Flush()
 	for i := 0; i < 40; i++ {
 		g.pool = append(g.pool, g.newKey())
 	}
+	return g, func() {
+		g.w.Flush()
+		g.chain.srv.Close()
+		f.Close()
+	}
+}
+
+var pForgedWorlds = [][]int{{1, 4}, {7, 2, 13}, {19, 3}, {4, 4, 1}}
+
+func TestVerifPush(t *testing.T) {
+	thorough := os.Getenv("VERIF_TIER") == "thorough"
+	g, done := pOpen(t, "explorer_push.cases")
+	defer done()
 	for n := 0; n <= 255; n++ {
 		fmt.Fprintf(g.w, "quo quo%d n=%d q=%d\n", n, n, nodeprocessor.CalculateQuorum(n))
 	}
@@ -801,8 +1111,28 @@ func TestVerifPush(t *testing.T) {
 	}
 	for i := 0; i < rounds; i++ {
 		g.verifyDirect()
+		g.gateCases()
+		for _, sizes := range pForgedWorlds {
+			g.forgedSequence(sizes)
+		}
 	}
 	for i := 0; i < nseq; i++ {
 		g.sequence(8 + g.r.Intn(10))
+	}
+}
+
+// TestVerifGate writes only the verification-gate cases (verifyVAA directly and through Push on fresh consumers, every VAA
+// with its own message id): the part of this harness that C06 re-uses for its anchor vaa_gossip_consumer.go.
+func TestVerifGate(t *testing.T) {
+	thorough := os.Getenv("VERIF_TIER") == "thorough"
+	g, done := pOpen(t, "explorer_gate.cases")
+	defer done()
+	rounds := 1
+	if thorough {
+		rounds = 6
+	}
+	for i := 0; i < rounds; i++ {
+		g.verifyDirect()
+		g.gateCases()
 	}
 }
